@@ -32,6 +32,22 @@ pub fn judge_encode(m: &RefMsg, loc: &mut Local) {
             if got == expect {
                 loc.outcome("bytes equal");
                 loc.sample(|| json!({"message": fp(&cm), "bytes": hex_short(&got)}));
+                // the same message built through the public constructor (which computes LEN, the
+                // verbose flag and NOAR itself) must produce the same bytes
+                loc.transitions += 1;
+                match catch(|| dlt_core::dlt::Message::new(config_of(m), cm.storage_header.clone()).as_bytes()) {
+                    Err(p) => loc.violation("Message::new(..).as_bytes panics", format!("Message::new(..).as_bytes() panicked ({}) for the configuration of {}", p, fp(&cm)), json!({"message": fp(&cm)})),
+                    Ok(built) if built != expect => {
+                        let at = built.iter().zip(expect.iter()).position(|(a, b)| a != b).unwrap_or(built.len().min(expect.len()));
+                        loc.outcome("constructor bytes differ");
+                        loc.violation(
+                            "bytes of a constructed message differ from the reference layout",
+                            format!("Message::new(config).as_bytes() differs from the reference encoding at offset {} (crate {} bytes, reference {} bytes)\n    message:   {}\n    crate:     {}\n    reference: {}", at, built.len(), expect.len(), fp(&cm), hex_short(&built), hex_short(&expect)),
+                            json!({"message": fp(&cm), "crate_hex": hex_short(&built), "reference_hex": hex_short(&expect), "first_difference": at}),
+                        );
+                    }
+                    Ok(_) => loc.outcome("constructor bytes equal"),
+                }
             } else {
                 let at = got.iter().zip(expect.iter()).position(|(a, b)| a != b).unwrap_or(got.len().min(expect.len()));
                 loc.outcome("bytes differ");
